@@ -1,6 +1,7 @@
 import Cutplace.Proofs.DigitLemmas
 import Cutplace.Proofs.RangeLemmas
 import Cutplace.Spec.Fields
+import Cutplace.Proofs.LengthRange
 /-
 C02  Each field type accepts exactly the values its rule describes.
 
@@ -107,6 +108,72 @@ where
       exact ⟨it, hit, (contains_denote_iff it v).mp hc⟩
     · rintro ⟨it, hit, hm⟩
       exact ⟨it.denote, ⟨it, hit, rfl⟩, (contains_denote_iff it v).mpr hm⟩
+
+theorem validate_denote_iff (d : RangeDesc) (v : Int) : (rangeOfItems (denote d)).validate v = true ↔ Accepts d v := by
+  simp only [Range.validate, rangeOfItems, validateLoop_iff, Accepts, denote, List.mem_map]
+  constructor
+  · rintro ⟨_, ⟨it, hit, rfl⟩, hc⟩
+    exact ⟨it, hit, (contains_denote_iff it v).mp hc⟩
+  · rintro ⟨it, hit, hm⟩
+    exact ⟨it.denote, ⟨it, hit, rfl⟩, (contains_denote_iff it v).mpr hm⟩
+
+/-- **Integer with only a length.** For every well-formed length declaration `L` (at least one item,
+`lower ≤ upper`, items pairwise disjoint, no negative lower limit, upper limits at least 1; lengths up
+to CPython's 4300-digit conversion limit) `create_range_from_length` succeeds, and the range it
+builds — by writing a text of nines and zeros and parsing it again with `Range()` — accepts an
+integer exactly when the length of its decimal text (`str(n)`, minus sign included) is one the
+declaration allows. -/
+theorem C02_int_length (L : RangeDesc) (hwf : WellFormed L) (hok : ∀ it ∈ L, LenItemOk it) (hb : LenBounded L) :
+    ∃ r, createRangeFromLength (rangeOfItems (denote L)) = .ok r ∧
+      ∀ n : Int, r.validate n = true ↔ Accepts L ((intRepr n).length : Int) := by
+  obtain ⟨hne, hwfi, hdis⟩ := hwf
+  obtain ⟨g1, g2, g3⟩ := guards_pass L hok hb
+  by_cases hw : ∃ it ∈ L, IsWhole it
+  · obtain ⟨it, hit, hwit⟩ := hw
+    have hL := whole_alone L hok hdis it hit hwit
+    subst hL
+    refine ⟨emptyRange, ?_, ?_⟩
+    · unfold createRangeFromLength
+      simp only [rangeOfItems, g1, g2, g3, Bool.false_eq_true, if_false]
+      rw [rangeText_whole it (hok it (by simp)) hwit]
+      rfl
+    · intro n
+      have hpos := textLen_pos n
+      obtain ⟨hhi, hlo⟩ := hwit
+      have : it.Mem ((intRepr n).length : Int) := by
+        rw [mem_iff_bounds]
+        refine ⟨fun l hl => ?_, fun u hu => ?_⟩
+        · have := hlo l hl
+          unfold textLen at hpos
+          omega
+        · rw [hhi] at hu; cases hu
+      simp [emptyRange, Range.validate, Accepts, this]
+  · have hnw : ∀ it ∈ L, ¬ IsWhole it := fun it hit h => hw ⟨it, hit, h⟩
+    have htext := rangeText_eq L hne hok hnw
+    obtain ⟨w1, w2⟩ := genAll_wf L hok hnw hdis
+    have hparse := parse_render (genAll L) (spsFor (genAll L)) ⟨genAll_ne_nil L hne hok hnw, w1, w2⟩ (legal_spsFor _)
+      (convertible_of_bounded _ _ (genAll_bounded L hok hb)) none
+    refine ⟨rangeOfItems (denote (genAll L)), ?_, ?_⟩
+    · unfold createRangeFromLength
+      simp only [rangeOfItems, g1, g2, g3, Bool.false_eq_true, if_false, htext]
+      exact hparse
+    · intro n
+      rw [validate_denote_iff]
+      exact genAll_accepts L hok hnw n
+
+/-- non-vacuity: the declaration `2...3, 5` (negative numbers count their sign) -/
+example :
+    let L : RangeDesc := [.closed 2 3, .single 5]
+    WellFormed L ∧ (∀ it ∈ L, LenItemOk it) ∧ LenBounded L ∧
+      Accepts L ((intRepr (-42)).length : Int) ∧ ¬ Accepts L ((intRepr 1234).length : Int) := by
+  refine ⟨by decide, ?_, ?_, by decide +kernel, by decide +kernel⟩
+  · intro it hit
+    simp at hit
+    rcases hit with rfl | rfl <;> exact ⟨by decide, by intro l hl; simp [ItemD.lo] at hl; omega, by intro u hu; simp [ItemD.hi] at hu; omega⟩
+  · intro it hit
+    have hm : maxStrDigits = 4300 := rfl
+    simp at hit
+    rcases hit with rfl | rfl <;> exact ⟨by intro l hl; simp [ItemD.lo] at hl; omega, by intro u hu; simp [ItemD.hi] at hu; omega⟩
 
 /-- Choice: accepted iff the cell is exactly one of the listed values (case-sensitively: list
 membership of the character sequence), returned unchanged. -/
